@@ -244,6 +244,8 @@ static void handler(int kind, const void *obj, int a, int b, int c)
         break;
     default: break;
     }
+    if (kind == KV_FWD_BEGIN || kind == KV_BWD_BEGIN || kind == KV_SPLIT_BEGIN || kind == KV_MERGE_BEGIN || kind == KV_MEET_BEGIN || kind == KV_KM_ENTER || kind == KV_DIST_CELL)
+        simomp_preempt_soon();
     simomp_hook_yield();
 }
 
